@@ -1,4 +1,7 @@
-"""R7 — hand-written validator for the Cucumber Messages shapes this library emits."""
+"""R7 — hand-written validator for the Cucumber Messages shapes this library emits.
+Step.keywordType and PickleStep.type are optional in Cucumber Messages (their presence and
+value are C05/C10's concern); when present they must come from the fixed vocabularies and
+must not be null."""
 from __future__ import annotations
 
 import json
@@ -18,7 +21,7 @@ SHAPES = {
     "DataTable": {"location": ("Location", True), "rows": ((L, "TableRow"), True)},
     "DocString": {"location": ("Location", True), "mediaType": (S, False), "content": (S, True), "delimiter": (S, True)},
     "Step": {"id": (S, True), "location": ("Location", True), "keyword": (S, True),
-             "keywordType": (("enum", KEYWORD_TYPES), True), "text": (S, True),
+             "keywordType": (("enum", KEYWORD_TYPES), False), "text": (S, True),
              "docString": ("DocString", False), "dataTable": ("DataTable", False)},
     "Background": {"id": (S, True), "location": ("Location", True), "keyword": (S, True), "name": (S, True),
                    "description": (S, True), "steps": ((L, "Step"), True)},
@@ -43,7 +46,7 @@ SHAPES = {
     "PickleStepArgument": ("oneof", {"docString": "PickleDocString", "dataTable": "PickleTable"}),
     "PickleTag": {"name": (S, True), "astNodeId": (S, True)},
     "PickleStep": {"id": (S, True), "astNodeIds": ((L, S), True), "text": (S, True),
-                   "type": (("enum", PICKLE_STEP_TYPES), True), "argument": ("PickleStepArgument", False)},
+                   "type": (("enum", PICKLE_STEP_TYPES), False), "argument": ("PickleStepArgument", False)},
     "Pickle": {"id": (S, True), "uri": (S, True), "name": (S, True), "language": (S, True),
                "steps": ((L, "PickleStep"), True), "tags": ((L, "PickleTag"), True), "astNodeIds": ((L, S), True)},
     "SourceReference": {"uri": (S, True), "location": ("Location", True)},
